@@ -205,6 +205,7 @@ class Check:
         aborted = []
         budget_cut = 0
         inconclusive = []
+        sig_state = {}
         for s in sorted(self.summaries, key=lambda x: x['name']):
             if s.get('error'):
                 self.harness_errors.append('section %s crashed: %s' % (s['name'], s['error'][-1500:]))
@@ -238,20 +239,32 @@ class Check:
                     inconclusive.append('%s/%s (%s)' % (s['name'], o['name'], o['how']))
                 else:
                     n_cex += 1
+                    st = sig_state.setdefault(o['sig'], {'tries': 0, 'rep': None, 'first': None})
+                    if st['rep'] is not None or st['tries'] >= 3:
+                        continue      # same signature already reproduced (or tried 3 models): not replayed again
                     rep = self._replay(s, o, nrep)
                     nrep += 1
+                    st['tries'] += 1
+                    if st['first'] is None:
+                        st['first'] = (s, o, rep)
                     if rep['reproduced']:
-                        hit = None
-                        for k in known:
-                            if k.get('signature') == o['sig']:
-                                hit = k
-                        if hit is not None:
-                            known_hits.setdefault(hit['signature'], (hit, rep))
-                        else:
-                            violations.append((s, o, rep))
-                    else:
-                        self.harness_errors.append('counterexample for %s/%s did not reproduce on the real code: %s (replay file %s)'
-                                                   % (s['name'], o['name'], rep.get('detail'), rep['path']))
+                        st['rep'] = (s, o, rep)
+        for sig, st in sorted(sig_state.items()):
+            if st['rep'] is not None:
+                s, o, rep = st['rep']
+                hit = None
+                for k in known:
+                    if k.get('signature') == sig:
+                        hit = k
+                if hit is not None:
+                    known_hits[sig] = (hit, rep)
+                else:
+                    violations.append((s, o, rep))
+            else:
+                s, o, rep = st['first']
+                self.harness_errors.append('counterexample for %s/%s (signature %s) did not reproduce on the real code in %d '
+                                           'attempts: %s (replay file %s)' % (s['name'], o['name'], sig, st['tries'],
+                                                                             rep.get('detail'), rep['path']))
         for name, ok, detail in self.concrete:
             if not ok:
                 self.harness_errors.append('concrete side-check failed: %s %s' % (name, detail))
